@@ -78,6 +78,38 @@ impl Prop for C07 {
                     out.fail(format!("context:entry-point:{}:{}", ek, key), format!("{} via {}", case, entry), format!("{:?} through {}: bindings differ from the reference", text, entry));
                 }
             }
+            // hand-assembled trees: statement chains put together from parsed pieces (a chain
+            // inside a chain, a chain of one, a chain as list element / call argument) evaluate
+            // their parts in the written order too
+            if i % 7 == 0 {
+                let j = (i * 31 + 5) % progs.len();
+                let other = progs.get(j);
+                let other_text = print_program(&other, &world);
+                let built_model = crate::model::parse::Ast::Stmt(vec![ast.clone(), crate::model::parse::Ast::Stmt(vec![other.clone(), ast.clone()]), crate::model::parse::Ast::List(vec![other.clone()])]);
+                let mm = run_model(&built_model, &world, Fault::None, 0);
+                let built = crate::engine::guarded(|| {
+                    let a = expression_engine::parse_expression(&text).map_err(|e| format!("parse: {:?}", e))?;
+                    let b = expression_engine::parse_expression(&other_text).map_err(|e| format!("parse: {:?}", e))?;
+                    Ok(expression_engine::ExprAST::Stmt(vec![a.clone(), expression_engine::ExprAST::Stmt(vec![b.clone(), a]), expression_engine::ExprAST::List(vec![b])]))
+                });
+                if let crate::engine::Res::Ok(tree) = built {
+                    let mut ctx = engine_context();
+                    arm(Fault::None, 0);
+                    let r = crate::engine::guarded(|| tree.exec(&mut ctx).map_err(|e| format!("{:?}", e)));
+                    let log = take_log();
+                    out.evals += 1;
+                    let same_result = match (&mm.result, &r) {
+                        (Ok(w), crate::engine::Res::Ok(g)) => w == g,
+                        (Err(_), crate::engine::Res::Err(_)) => true,
+                        _ => false,
+                    };
+                    if log != mm.log {
+                        out.fail(format!("log:hand-assembled-chain:{}", key), format!("{} hand-assembled with {}", case, show(&other_text)), format!("Stmt[A, Stmt[B, A], List[B]] with A = {:?}, B = {:?}: expected log {:?}, engine log {:?}", text, other_text, mm.log, log));
+                    } else if !same_result {
+                        out.fail(format!("result:hand-assembled-chain:{}", key), format!("{} hand-assembled with {}", case, show(&other_text)), format!("expected {:?} got {:?}", mm.result.as_ref().map(super::vals::show_value), r));
+                    }
+                }
+            }
             let n = m.log.len();
             if n >= 1 {
                 out.nontrivial.insert(hash64(&text));
